@@ -1333,6 +1333,14 @@ pub fn run_generated(args: &Args, rep: &mut Report, drv: &mut Drv) {
         if rep.samples.len() < 3 && ev.targets >= 2 && ev.depth >= 1 {
             rep.sample(Json::obj(vec![("case", Json::Arr(case_lines(&cfg, &ops).into_iter().map(Json::s).collect())), ("plan", Json::s(ev.layout_key.clone())), ("rendezvous_experiments", Json::n(ev.targets as u64)), ("met", Json::n(ev.targets_met as u64))]));
         }
+        if cfg.wafter {
+            // the witness configuration of the open finding KF2 (a waiting system behind a batch in
+            // its group): schedule-dependent, reported as it is, under its own class
+            if !ev.impl_v.is_empty() && reported.insert("impl:kf2".into()) {
+                rep.violate("C11", "impl", "kf2:behind-batch", format!("{} [{}]", ev.impl_v[0], label), case_lines(&cfg, &ops));
+            }
+            continue;
+        }
         if !ev.impl_v.is_empty() && reported.insert("impl".into()) {
             // Shrink with a short deadline and a bounded amount of time (every candidate that still
             // fails waits for its deadline), then confirm with the generous deadline.
